@@ -17,7 +17,7 @@ Row jobs of (3b)/(4)/(5) are scheduled only if they have a measured passing run 
 The evidence carries the list of every fast-path table entry of sse2 / fast with its status and job names.
 """
 import os, re, json
-from vdriver import Job, PyJob, REPO, VERIF, sh, include_flags
+from vdriver import Job, PyJob, REPO, VERIF, sh, include_flags, ext_jobs, ext_meta
 
 PC = ["--pointer-check", "--bounds-check"]
 RL = ["harness/C02/replay_link.c"]
@@ -1157,6 +1157,14 @@ def scheduled_row_jobs():
     return by
 
 
+# extension modules merged into this property's job list (vdriver.ext_jobs / ext_meta)
+EXT = [
+    # the scaled fast paths differ from the general path only by their main loops / bounds helper: C08's jobs for them are C02 obligations
+    # (an implementation that samples a different pixel is not bit-identical) (seeds C02-5, C08-3, C08-4)
+    ("C08", lambda n: n.startswith(("pad_bounds", "scl."))),
+]
+
+
 def jobs(tier):
     js = dispatch_jobs(tier) + sse2_jobs(tier) + fastpath_jobs(tier) + measured_only(fastfmt_jobs(tier) + sse2c_jobs(tier))
     if tier == "quick":
@@ -1166,7 +1174,7 @@ def jobs(tier):
     js.append(table_job())
     if os.path.exists(os.path.join(VERIF, "harness", "C02", "models_selftest.c")):
         js.append(selftest_job())
-    return js
+    return js + ext_jobs(tier, EXT)
 
 
 META = {
@@ -1202,3 +1210,4 @@ META = {
                     "pixman-x86.c CPU detection (cpuid inline asm)", "pixman_blt / pixman_fill (C19)"],
     "explanation": "per-entry status of sse2_fast_paths / c_fast_paths with the names of the scheduled jobs: evidence/C02_tables.json (written by job tables.scan)",
 }
+META = ext_meta(META, EXT)
